@@ -1,5 +1,6 @@
 import LokiModel.C15.Finder
 import LokiModel.C15.Unique
+import LokiModel.C15.Scopes
 import LokiModel.Generated.C15Tables
 /-!
 # C15 — node and expression finders return exactly the matching nodes (property theorems)
@@ -11,9 +12,9 @@ expression object, then the object), `exprsC` / `pairsN` / `allExprsC` (`LokiMod
 
 The statement "every occurrence in every expression of the tree is returned" is **false** for the unchanged code
 (`C15_finder_complete_full_false`): expression fields that are not in `_traversable` (`PrintStmt.values`, …) are not
-searched; outside that class it holds (`C15_finder_complete_partial`).  The pairing mode deviates on trees that contain
-a `VariableDeclaration` (`C15_pairing_full_false`); without declarations it is exactly the grouping by node
-(`C15_pairing_eq_spec_partial`, `C15_pairing_same_multiset_partial`).
+searched; outside that class it holds (`C15_finder_complete_partial`).  The pairing mode is exactly the grouping by node
+(`C15_pairing_eq_spec`, `C15_pairing_same_multiset`; the former deviation on declarations was repaired), `FindScopes`
+returns exactly the ancestor chains of the matches (`C15_findScopes_eq_paths`).
 -/
 namespace LokiModel.C15
 
@@ -169,46 +170,49 @@ theorem C15_uniqE_spec (xs : List E) :
 
 /-! ## pairing with IR nodes -/
 
-/-- class `pairing-leaks-raw-declaration-children` (Lean side: the tree contains a `VariableDeclaration` the finders
-reach; the failing inputs are those where the declaration holds a match) -/
-def KnownDeclPairing (c : Child) : Bool := hasDeclC c
-
-/-- **with_ir_node**: on a tree without declarations the finder returns, without raising, exactly one pair
-`(node, finds)` for every reached node whose own expressions contain a match — children before the node —
-with `finds` the node's own finds in order (`unique`: deduplicated per node). -/
-theorem C15_pairing_eq_spec_partial (cfg : Cfg) (hp : cfg.pairing = true) (q : E → Bool) (t : Node)
-    (hk : KnownDeclPairing (.n t) = false) :
+/-- **with_ir_node**: on every tree the finder returns, without raising, exactly one pair `(node, finds)` for every
+reached node whose own expressions (for a declaration also the initial values of its symbols) contain a match —
+children before the node — with `finds` the node's own finds in order (`unique`: deduplicated per node). -/
+theorem C15_pairing_eq_spec (cfg : Cfg) (hp : cfg.pairing = true) (q : E → Bool) (t : Node) :
     finderV cfg q (.n t) = .ok (pairsN cfg q t) := by
-  simp only [finderV]; exact pairN cfg hp q t (by simpa [KnownDeclPairing, hasDeclC] using hk)
+  simp only [finderV]; exact pairN cfg hp q t
 
 /-- … and the pairs hold the same multiset as the plain result -/
-theorem C15_pairing_same_multiset_partial (q : E → Bool) (t : Node) (hk : KnownDeclPairing (.n t) = false) :
+theorem C15_pairing_same_multiset (q : E → Bool) (t : Node) :
     ∃ rs, finderV plainPair q (.n t) = .ok rs ∧ (itemsE (exprsN q t)).Perm (rs.flatMap R.found) :=
-  ⟨_, C15_pairing_eq_spec_partial plainPair rfl q t hk,
-    permN q t (by simpa [KnownDeclPairing, hasDeclC] using hk)⟩
-
-/-- the full pairing statement (no hypothesis on the tree) -/
-def C15_pairing_full : Prop :=
-  ∀ (q : E → Bool) (t : Node), finderV plainPair q (.n t) = .ok (pairsN plainPair q t)
+  ⟨_, C15_pairing_eq_spec plainPair rfl q t, permN q t⟩
 
 def nE : E := .msym ⟨"Scalar", "n", "n"⟩ (.sym ⟨"VariableSymbol", "n", "n"⟩ none) none
 def declWitness : Node := .mk "VariableDeclaration" 0 0 [.grp [.e nE], .junk "None"] []
 def isScalar : E → Bool := fun e => e.tag.cls == "Scalar"
 
-/-- what `FindVariables(unique=False, with_ir_node=True)` returns for `integer :: n`: the symbol three times and `None` -/
-theorem decl_leak : finderV plainPair isScalar (.n declWitness)
-    = .ok [R.pair 0 [.e nE, .junk "None", .e nE, .e nE]] := by
-  simp [declWitness, finderV, finderN, isTypeDef, isVarDecl, finderT, finderEach, bindE, walk, walkO, post, ret, flat1,
-    isScalar, E.tag, plainPair, rawCs, rawC, R.item?, R.isPair, findUniques, initials, symbolsOf, nE]
+/-- regression (formerly `[n, None, n, n]`): `integer :: n` gives the one pair `(declaration, [n])` -/
+theorem C15_pairing_declaration_regression :
+    finderV plainPair isScalar (.n declWitness) = .ok [R.pair 0 [.e nE]] := by
+  rw [C15_pairing_eq_spec plainPair rfl]
+  simp [declWitness, pairsN, pairsCs, pairsC, isTypeDef, isVarDecl, ownFinds, dfinds, directCs, directC, postorder,
+    postorderO, isScalar, E.tag, uq, plainPair, itemsE, nE, initials, symbolsOf]
 
-/-- … so the full statement fails -/
-theorem C15_pairing_full_false : ¬ C15_pairing_full := by
-  intro h
-  have h1 := h isScalar declWitness
-  rw [decl_leak] at h1
-  simp [declWitness, pairsN, pairsCs, pairsC, isTypeDef, dfinds, directCs, directC, postorder, postorderO, isScalar,
-    E.tag, uq, plainPair, itemsE, nE] at h1
+/-! ## FindScopes -/
 
-example : KnownDeclPairing (.n (.mk "Loop" 0 0 [.e (.const ⟨"int", "1", ""⟩), .grp []] [])) = false := by decide
+/-- **FindScopes**: for every tree / tuple of trees, every match object `m` and both settings of `greedy`, the result
+is the list of ancestor chains `anc ++ … ++ [node]` (`pathsC`: pruned pre-order, a `TypeDef` listed but not entered)
+of exactly the nodes that are the object `m`, in pre-order. -/
+theorem C15_findScopes_eq_paths (m : Nat) (g : Bool) (anc : List Node) (c : Child) :
+    scopesC m g anc c = (pathsC (fun x => ruleIs m x && g) anc c).filter (endsIn m) := scopesC_eq m g c anc
+
+/-- the chains of the reference really are ancestor chains: each starts with the ancestors passed in, and their last
+elements are the (pruned) pre-order of the tree -/
+theorem C15_paths_spec (p : Node → Bool) (anc : List Node) (c : Child) :
+    (∀ ch ∈ pathsC p anc c, anc <+: ch) ∧ (pathsC p anc c).map List.getLast? = (prunedC p c).map some :=
+  ⟨pathsC_prefix p c anc, pathsC_last p c anc⟩
+
+/-- the nodes `FindScopes` ends its chains with are those `FindNodes` finds by identity -/
+theorem C15_findScopes_last (m : Nat) (g : Bool) (anc : List Node) (c : Child) :
+    (scopesC m g anc c).filterMap List.getLast? = findC (ruleIs m) g c := scopesC_last m g c anc
+
+example : (scopesC 1 true [] (.n (.mk "Section" 0 0 [.grp [.n (.mk "TypeDef" 1 1 [.grp []] [])]] []))).map (·.map Node.uid)
+    = [[0, 1]] := by
+  simp [scopesC, scopesN, scopesCs, isTypeDef, Node.uid]
 
 end LokiModel.C15
